@@ -6,7 +6,7 @@ sys.path.insert(0, os.path.dirname(os.path.abspath(__file__)))
 from props import PROPS
 V = os.path.dirname(os.path.dirname(os.path.abspath(__file__)))
 out = []
-out.append("### 7.7 Per-property status as built (generated from lib/props.py)\n")
+out.append("### 7.8 Per-property status as built (generated from lib/props.py)\n")
 for pid in sorted(PROPS):
     c = PROPS[pid]
     eng = []
